@@ -49,14 +49,14 @@ CHECKS["C15"] = ("simsut", "exploration", "deterministic simulation: conservatio
 CHECKS["C19"] = ("simsut", "exploration", "deterministic simulation: replay determinism of seeded runs, filter-projection differential, crash/hang containment per case",
    "Each seeded case is simulated repeatedly from fresh queues (different real start instants) and must give identical traces; filtered outputs must be sub-sequences of the unfiltered run; any panic/abort/hang or bound overrun is a violation.",
    "Hang = 2 s CPU per case; integration delays never enabled.", "DESIGN.md §6 C19")
-CHECKS["C16"] = ("simsut", "exploration", "deterministic simulation: H2 processing log of seeded two-party simulations replayed against a per-side blocking model (expiry rule, all-allowed-bypass flag, bypass accounting), same-instant ties tolerated",
-   "Every BlockingBegin/BlockingEnd and every packet leaving strictly inside a blocking window is judged against a model built from the actions the frameworks returned; known findings D6 (zero-duration blocking) and D7 (bypass flag of the last action wins) are matched narrowly and reported as KNOWN-FINDING.",
+CHECKS["C16"] = ("simsut", "exploration", "deterministic simulation: H2 processing log of seeded two-party simulations replayed against a per-side blocking model (expiry rule, all-allowed-bypass flag, bypass accounting), plus an exact log-position judge on the H2b timer-expiry records",
+   "Every BlockingBegin/BlockingEnd and every packet leaving strictly inside a blocking window is judged against a model built from the actions the frameworks returned; known findings D6 (zero-duration blocking) and D7 (bypass flag of the last action wins) are matched narrowly and reported as KNOWN-FINDING. With the H2b expiry records a second judge takes the blocking to run from the log position of the executed BlockOutgoing to the BlockingEnd handed to the framework and judges every packet leaving in between, boundary instants included.",
    "Causing action identified via the C17 model; simultaneous events are judged against every blocking state of their instant; when several simultaneous candidate actions differ the blocking is treated as unknown until it ends (counted as ambiguous_skipped).", "DESIGN.md §6 C16, §8")
 CHECKS["C17"] = ("simsut", "exploration", "deterministic simulation: H2 log replayed against a per-machine action-timer model; H2 log cross-checked by replaying each side through a fresh identically seeded framework",
-   "Every PaddingSent/BlockingBegin must be caused by the pending action (kind, due time), exactly once; nothing may be overdue once simulated time has moved on; superseding/cancelling at the due instant is a tolerated tie.",
+   "Every PaddingSent/BlockingBegin must be caused by the pending action (kind, due time), exactly once; nothing may be overdue once simulated time has moved on; the H2b expiry records make the order of expiry against same-instant events visible, so an action cancelled or superseded at its own due instant must not expire afterwards, and every report corresponds to exactly one expiry.",
    "The actions acted upon come from the H2 hook and are validated against a fresh framework replay.", "DESIGN.md §6 C17")
 CHECKS["C18"] = ("simsut", "exploration", "deterministic simulation: H2 log replayed against a per-machine internal-timer model (UpdateTimer contract)",
-   "TimerBegin must follow an UpdateTimer of that instant and is owed whenever the action set or changed the timer; TimerEnd exactly once at the model's expiry, never for a cancelled/superseded timer (same-instant ties tolerated).",
+   "TimerBegin must follow an UpdateTimer of that instant and is owed whenever the action set or changed the timer; TimerEnd exactly once at the model's expiry, never for a cancelled/superseded timer; the H2b expiry records decide same-instant order exactly (a timer cancelled at its expiry instant before it expired must not expire).",
    "An UpdateTimer that changes nothing permits but does not require a TimerBegin.", "DESIGN.md §6 C18")
 CHECKS["C13"] = ("distsim", "exploration", "deterministic simulation with fault injection on the random-source seam: scripted extreme-word prefixes followed by a fair stream, against Dist::sample and the framework's consumers, with per-case crash/hang containment",
    "Validated distributions of all 11 families (corner and random parameters) are sampled under adversarial prefixes of the random source, directly and as timeout/duration/limit/counter value inside a framework; a panic, hang (word budget / CPU limit) or out-of-range value is a violation. Two defects of the rand_distr dependency (D5 hang, D9 assertion) are matched narrowly as known findings.",
